@@ -8,7 +8,7 @@ CONSTANTS
   NamePool = 0
   Uninits = {FALSE}
   AllowBad = FALSE
-  MaxData = 4
+  MaxData = 5
   MaxVariants = 4
   MaxAddsPerVariant = 4
   CheckConvert = FALSE
